@@ -386,26 +386,6 @@ func (m *lexerModel) tailSetsLine() bool {
 	return set
 }
 
-// tailReads: number of readChar calls in the shared tail.
-func (m *lexerModel) tailReads() int {
-	after := false
-	n := 0
-	for _, st := range m.insideTk.Decl.Body.List {
-		if st == ast.Stmt(m.sw) {
-			after = true
-			continue
-		}
-		if after {
-			for _, c := range callsIn(st, false) {
-				if m.isCall(c, m.readChar) {
-					n++
-				}
-			}
-		}
-	}
-	return n
-}
-
 // walk enumerates the paths through stmts. It returns the paths that left
 // the function (done) and those that fall out of the statement list (open).
 // A `break` that is not inside a nested switch/loop leaves the arm: such a
@@ -834,88 +814,7 @@ func (m *lexerModel) byteOperand(info *types.Info, e ast.Expr, isCh func(ast.Exp
 	return constInt(info, e)
 }
 
-// byteSet returns the set of byte values for which pred holds.
-func (m *lexerModel) byteSet(info *types.Info, e ast.Expr, isCh func(ast.Expr) bool) (set []byte, ok bool) {
-	for i := 0; i < 256; i++ {
-		v, ok := m.evalBytePred(info, e, isCh, byte(i))
-		if !ok {
-			return nil, false
-		}
-		if v {
-			set = append(set, byte(i))
-		}
-	}
-	return set, true
-}
-
 // ---- shared rules ------------------------------------------------------------
-
-// lexerCursorRule: every path of every selected arm leaves the cursor exactly
-// behind its token (C06.R7 for the token arms, C18.R2 for the comment arm).
-func lexerCursorRule(r *Run, rule string, m *lexerModel, sel func(lexArm) bool) {
-	w := r.W
-	if len(m.problems) > 0 || m.insideTk == nil {
-		r.Lost(rule, "lexer model: "+strings.Join(m.problems, "; "))
-		return
-	}
-	fn := m.insideTk.Name()
-	tail := m.tailReads()
-	for _, a := range m.arms {
-		if !sel(a) {
-			continue
-		}
-		for _, p := range a.paths {
-			pos := p.pos
-			if !pos.IsValid() {
-				pos = a.clause.Pos()
-			}
-			con := a.label
-			if p.tokTypeOK {
-				con += " -> " + p.tokType
-			}
-			move := p.reads
-			if p.exit == "tail" {
-				move += tail
-			}
-			switch {
-			case a.isEOF:
-				r.Ok(rule, fn, con, w.Pos(pos), "end of input: the cursor is pinned, movement is irrelevant")
-			case p.recursive:
-				if p.exit == "return-recursive" {
-					r.Ok(rule, fn, con+" (re-lex after comment)", w.Pos(pos), "result of the recursive token call returned without further cursor movement")
-				} else {
-					r.Bad(rule, fn, con+" recursive token call then "+p.exit, w.Pos(pos),
-						"after skipping a comment the next token is fetched by a recursive call, which leaves the cursor behind that token; the path must return that token directly, but it continues into the shared tail and consumes one more byte")
-				}
-			case contains(p.scans, "behind"):
-				if strings.HasPrefix(p.exit, "return") && p.readsAfter == 0 {
-					r.Ok(rule, fn, con+" (scanner stops behind the token)", w.Pos(pos), "returns without further cursor movement")
-				} else {
-					r.Bad(rule, fn, con+" behind-scanner then "+p.exit, w.Pos(pos),
-						"the identifier/number scanner already leaves the cursor behind the token; the path must return directly, but it moves the cursor again (shared tail or extra readChar) and swallows the next byte")
-				}
-			case contains(p.scans, "on"):
-				if p.exit == "tail" && p.readsAfter == 0 && tail == 1 {
-					r.Ok(rule, fn, con+" (scanner stops on the closing quote)", w.Pos(pos), "shared tail steps over the closing quote")
-				} else {
-					r.Bad(rule, fn, con+" on-scanner then "+p.exit, w.Pos(pos),
-						"the string scanner stops ON the closing quote; exactly the shared tail's single readChar must follow")
-				}
-			case contains(p.scans, "loop"):
-				r.Bad(rule, fn, con+" loop in a token arm", w.Pos(pos), "unrecognised scanning loop inside a token arm: cursor movement cannot be determined")
-			case !p.literalOK:
-				r.Bad(rule, fn, con+" literal unknown", w.Pos(pos), "the token literal cannot be determined statically, so the cursor post-condition cannot be checked")
-			default:
-				if move == len(p.literal) {
-					r.Ok(rule, fn, fmt.Sprintf("%s literal %q", con, p.literal), w.Pos(pos), fmt.Sprintf("cursor moves %d = len(literal)", move))
-				} else {
-					r.Bad(rule, fn, fmt.Sprintf("%s literal %q moves %d", con, p.literal, move), w.Pos(pos),
-						fmt.Sprintf("token %q is %d byte(s) long but the cursor moves %d byte(s) on this path", p.literal, len(p.literal), move))
-				}
-			}
-		}
-	}
-}
 
 func contains(xs []string, s string) bool {
 	for _, x := range xs {
@@ -924,30 +823,6 @@ func contains(xs []string, s string) bool {
 		}
 	}
 	return false
-}
-
-// productions: (token type, literal) pairs the inside-tag switch can produce.
-func (m *lexerModel) productions() map[string][]string {
-	out := map[string][]string{}
-	for _, a := range m.arms {
-		for _, p := range a.paths {
-			if p.tokTypeOK && p.literalOK {
-				dup := false
-				for _, l := range out[p.tokType] {
-					if l == p.literal {
-						dup = true
-					}
-				}
-				if !dup {
-					out[p.tokType] = append(out[p.tokType], p.literal)
-				}
-			}
-		}
-	}
-	for k := range out {
-		sort.Strings(out[k])
-	}
-	return out
 }
 
 func c06LexerLiterals(r *Run) {
